@@ -6,7 +6,7 @@ ok=0; miss=0
 for d in seeded/*/; do
     id=$(basename "$d")
     [ -f "$d/patch.diff" ] || continue
-    out=$(./tools/seeded_eval.py "$id" 2>&1)
+    out=$(./tools/seeded_eval.py "$id" ${SEEDED_EVAL_FLAGS:-} 2>&1)
     if echo "$out" | grep -q "exit 1"; then ok=$((ok+1)); echo "caught  $id"; else miss=$((miss+1)); echo "MISSED  $id"; echo "$out" | head -5; fi
 done
 echo "seeded changes caught: $ok, missed: $miss"
